@@ -36,7 +36,9 @@ def leaves(uform):
                 ("cmp", "ge", xq, L(2)), ("cmp", "ne", xp, L(1))]
     return [("cmp", "ge", xp, up), ("cmp", "ne", uq, xq), ("cmp", "eq", xp, up), ("cmp", "lt", xq, up),
             ("cmp", "ge", up, L(2)), ("cmp", "eq", uq, L(1)), ("cmp", "ge", xq, L(2)), ("cmp", "ne", xp, L(1)),
-            ("cmp", "eq", up, uq)]
+            ("cmp", "eq", up, uq),
+            # user predicates over the free and the universal variable (function and class form), over the universal only
+            ("pf", "p_lt", (U, X)), ("pc", "PLt", (X, U)), ("pf", "p_eq", (U, L(1)))]
 
 
 def udomains(max_rows, values):
